@@ -159,15 +159,16 @@ func runC06(c *runCtx) {
 	res.Rule = fmt.Sprintf("every accepted input (model-grammar queries and DML with redundant parentheses, the name-placement generator's statements incl. MERGE / ON CONFLICT / windows / CTEs / set operations, the repository's SQL corpus, the built-in corpus) x %d serialiser configurations (AST.SQL; AST.Format over keyword case x newline-per-clause x semicolon x indent style/width, compact and readable presets; gosqlx.Format; formatter.Format; the CLI formatter): the output must be accepted, its tree must equal the original tree up to the letter case of keyword/operator words (reflection dump, field by field), and serialising the re-parsed tree must reproduce the output (formatting stable); failures are keyed by serialiser family and the node type at the first difference (distinct = distinct inputs)", len(sers))
 	var inputs []string
 	g := newSQLGen(c.rng.Fork())
-	for i := 0; i < c.n(500, 20000); i++ {
+	for i := 0; i < c.n(1500, 20000); i++ {
 		g.Plain = i%3 == 0
 		inputs = append(inputs, g.Statement())
 	}
 	cg := &c15gen{r: c.rng.Fork()}
-	for i := 0; i < c.n(400, 15000); i++ {
+	for i := 0; i < c.n(1200, 15000); i++ {
 		s, _ := cg.Statement()
 		inputs = append(inputs, s)
 	}
+	nGenerated := len(inputs) // the catalogue and the repository corpus go through every configuration in both tiers
 	inputs = append(inputs, builtinCorpus...)
 	inputs = append(inputs, repoCorpus()...)
 	// the node types the CLI formatter knows (regenerated from its source)
@@ -379,7 +380,7 @@ func runC06(c *runCtx) {
 			res.sample(map[string]any{"sql": clip(x, 200), "ast.SQL": clip(t0.SQL(), 200)})
 		}
 		for si, s := range sers {
-			if c.quick && idx%4 != 0 && si%5 != idx%5 && s.name != "ast.SQL" {
+			if c.quick && idx < nGenerated && idx%4 != 0 && si%5 != idx%5 && s.name != "ast.SQL" {
 				continue // quick: every input through AST.SQL, a rotating fifth of the other configurations
 			}
 			var y string
